@@ -154,11 +154,11 @@ def run_C19(ctx):
 def c14_corpus(ctx):
     rnd = random.Random(ctx.seed * 31337 + 5)
     gs = []
-    for k in ('expr', 'ambig_prec', 'nullable_chain', 'lalr_paths', 'includes_cycle', 'deep_nullable', 'dangling_else', 'rr_three', 'ring3', 'chain_two_contexts', 'ring2_nullable', 'expr3'):
+    for k in ('expr', 'ambig_prec', 'nullable_chain', 'lalr_paths', 'includes_cycle', 'deep_nullable', 'dangling_else', 'rr_three', 'ring3', 'chain_two_contexts', 'ring2_nullable', 'expr3', 'unit_term3'):
         gs.append(('c_' + k, genrun.fix_tags(gram.curated()[k])))
     for i in range(6 if ctx.quick else 40):
         gs.append(('ring%d' % i, genrun.fix_tags(gram.ring_grammar(rnd, nullable=bool(i % 2)))))
-    for i in range(8 if ctx.quick else 60):
+    for i in range(16 if ctx.quick else 100):
         gs.append(('lay%d' % i, genrun.fix_tags(gram.layered_expr(rnd))))
     n = 14 if ctx.quick else 120
     for i in range(n):
